@@ -12,7 +12,7 @@ nothing; a registration with a hold time is called exactly at change+ms iff it w
 A second stream (oracle only) checks the Switch device's events: <name>_active/_inactive, tag events,
 events_when_activated with |ms and the ignore window.
 """
-from harness.common import leanproc
+from harness.common import leanproc, mpfleak
 from harness.common.shrink import ddmin
 from harness.common.util import InfraError
 from harness.common.vmachine import VMachine, BootError
@@ -624,8 +624,12 @@ def run(ctx):
             check_case(ctx, case, model)
         for i in range(ctx.n(900, 15000)):
             check_case(ctx, gen_case(ctx.rng("ctl", i)), model)
+            if i % 200 == 199:
+                mpfleak.release()
         for i in range(ctx.n(300, 5000)):
             check_event_case(ctx, gen_event_case(ctx.rng("ev", i)))
+            if i % 200 == 199:
+                mpfleak.release()
     finally:
         if model is not None:
             model.close()
